@@ -692,11 +692,13 @@ META = {
                    '(each declarative note span emitted exactly once, nothing else; maximal runs without predictions; only notes '
                    'failing the float minimum-duration test are dropped; onset decoder one note per cell) by induction over the '
                    'frames; roll -> notes -> roll is the identity under the explicit boolean premise that frame index arithmetic '
-                   'is exact at every run boundary, and that premise is proved for every power-of-two frame rate (8, 16, 32). '
+                   'is exact at every run boundary (and conversely notes -> roll -> notes for separated grid notes), and that premise is '
+                   'proved for every power-of-two frame rate (8, 16, 32); the active roll of sequence_to_pianoroll is characterised '
+                   'cell by cell for any note list. '
                    'The unconditional round trip is refuted for 100 fps (known finding F14: 31.25, 50, 62.5, 100 fps).'),
     'level_note': ('Trusted: Coq kernel + vm_compute, Flocq 4.1, stdlib Reals / FloatAxioms; the hand-written model '
                    'Model/FramesRoll.v tied to note_seq by a differential run (~1300 quick / ~24000 thorough cases, floats '
                    'bit-exact, decoded times via a fingerprint of their bit patterns); numpy slice-assignment semantics and the '
                    'float32 cast of velocity / weight cells are modelled by hand / recomputed in the harness. velocity_values, '
-                   'non-0/1 cells and the converse composition notes -> roll -> notes have no theorem.'),
+                   'non-0/1 cells, weights / onset / offset rolls and control changes have no theorem.'),
 }
